@@ -60,6 +60,10 @@ Report(v, d) ==
     /\ IF v # {} THEN PrintT(<<"KVFAIL", l, sid, v>>) ELSE TRUE
     /\ IF d # {} THEN PrintT(<<"KVDIV", l, sid, d>>) ELSE TRUE
 
+(* names: FASTA keeps a name in full, the block formats (Clustal, MSF) and their readers keep its first MSA_NAME_LEN - 1 = 255
+   bytes (256 when written from a longer FASTA name); beyond that length names are compared on what every path keeps *)
+NameEq(x, y) == x = y \/ (Len(x) >= 255 /\ Len(y) >= 255 /\ SubSeq(x, 1, 255) = SubSeq(y, 1, 255))
+
 TReset ==
     /\ Is("Reset")
     /\ l' = l + 1
@@ -86,12 +90,27 @@ TSkip ==
     /\ UNCHANGED <<sid, recs, rank, res, gaps, node, consumed, tasks, outrows>>
     /\ Report({}, {})
 
+(* the records as the generator wrote them into the input file(s): from here on THEY are "the input" *)
+TGiven ==
+    /\ Is("Given")
+    /\ l' = l + 1
+    /\ recs' = [names |-> Ev.names, seqs |-> Ev.seqs, given |-> TRUE]
+    /\ UNCHANGED <<sid, rank, res, gaps, node, consumed, tasks, outrows>>
+    /\ Report({}, {})
+
+(* what kalign read: the reference when nothing was given (array API, traces of other checks); otherwise it must BE what was
+   given - same number of records, same names (NameEq), the same residues letter for letter *)
 TIn ==
     /\ Is("Obj") /\ Ev.tag = "in"
     /\ l' = l + 1
-    /\ recs' = [names |-> Ev.names, seqs |-> Ev.seqs]
     /\ UNCHANGED <<sid, rank, res, gaps, node, consumed, tasks, outrows>>
-    /\ Report({}, {})
+    /\ IF recs # <<>> /\ "given" \in DOMAIN recs /\ Ev.null = 0
+       THEN /\ UNCHANGED recs
+            /\ Report(IF Len(Ev.seqs) # Len(recs.seqs) THEN {"C01:records-read-differ-from-the-input-file"}
+                      ELSE (IF \E k \in 1..Len(Ev.seqs) : Ev.seqs[k] # recs.seqs[k] THEN {"C01:residues-read-differ-from-the-input-file"} ELSE {})
+                           \cup (IF \E k \in 1..Len(Ev.names) : ~NameEq(Ev.names[k], recs.names[k]) THEN {"C01:name-or-order"} ELSE {}), {})
+       ELSE /\ recs' = [names |-> Ev.names, seqs |-> Ev.seqs]
+            /\ Report({}, {})
 
 (* canonical order fixed: leaf i (1-based) is the input record with rank Ev.ranks[i] *)
 TSorted ==
@@ -212,7 +231,7 @@ OutChecks(names, rows, checknames) ==
     IN (IF Len(rows) # n THEN {"C01:row-count"} ELSE
           (IF ~EqualLen(rows) THEN {"C01:row-length"} ELSE {})
           \cup (IF \E k \in 1..n : StripDash(rows[k]) # recs.seqs[idx[k]] THEN {"C01:degap"} ELSE {})
-          \cup (IF checknames /\ \E k \in 1..n : names[k] # recs.names[idx[k]] THEN {"C01:name-or-order"} ELSE {})
+          \cup (IF checknames /\ \E k \in 1..n : ~NameEq(names[k], recs.names[idx[k]]) THEN {"C01:name-or-order"} ELSE {})
           \cup (IF EqualLen(rows) /\ n > 0 /\ AllGapCols(rows) # {} THEN {"C01:all-gap-column"} ELSE {}))
 
 TOutObj ==
@@ -253,7 +272,7 @@ TOtherObj ==
 
 (* a crashed or truncated execution is not explained by any action *)
 Next ==
-    \/ TReset \/ TNote \/ TSkip \/ TIn \/ TSorted \/ TTree \/ TMergeEnd \/ TMergeEndDigest
+    \/ TReset \/ TNote \/ TSkip \/ TGiven \/ TIn \/ TSorted \/ TTree \/ TMergeEnd \/ TMergeEndDigest
     \/ TFinal \/ TOutObj \/ TOutFile \/ TArr \/ TOtherObj
 
 Spec == Init /\ [][Next]_vars
